@@ -107,7 +107,7 @@ ITEM_PROPS = {
 
 
 def translator_item_props(item):
-    if item.split(".")[0] in ("steps", "setters", "readers"):
+    if item.split(".")[0] in ("steps", "setters", "readers", "layout"):
         # Gen/{Steps,Setters,Readers}/<Module>.lean (translator items T7-T20): the properties whose theorems are built on that group of functions
         import translate
         return translate.step_module_props().get(item, set())
@@ -380,7 +380,10 @@ def main():
             s.sid += "'"
         seen.add(s.sid)
 
-    viol, dis, stats, ti, tm = evaluate(pid, scns, bins, ls["driver_ok"])
+    # scenarios with working buffers of tens of kilobytes (family `wide`, only produced by the failing-input search) are judged by the
+    # oracle on the implementation alone: the model's list-based buffers take minutes to follow them
+    huge = bool(replay) and any(s.buf > 8192 for s in scns)
+    viol, dis, stats, ti, tm = evaluate(pid, scns, bins, ls["driver_ok"] and not huge)
 
     # metamorphic oracles (twin runs on the implementation)
     meta = []
@@ -458,9 +461,17 @@ def main():
             big = [(sc, m) for (sc, m) in big if not matches_known(pid, sc, m, kf)]
             if big:
                 found = big[0]
+        if not found and not replay and any("layout." in b for b in broken):
+            # a counter the model keeps unbounded is no longer a size_t: sizes beyond 255 / 65535, on the implementation alone
+            wide = families.generate(seed, "wide", 8 if tier == "quick" else 30, prefix="%s-wide" % pid)
+            v3, _, _, _, _ = evaluate(pid, wide, bins, False)
+            v3 = [(sc, m) for (sc, m) in v3 if not matches_known(pid, sc, m, kf)]
+            if v3:
+                found = v3[0]
+                found[0].no_minimise = True
         nrep += 1
         if found:
-            path = write_replay(pid, found[0], ["property %s violated on the implementation (found by mutating a diverging scenario)" % pid] + found[1][:5] + broken, nrep)
+            path = write_replay(pid, found[0], ["property %s violated on the implementation (found by the extended search)" % pid] + found[1][:5] + broken, nrep)
             out_lines.append("VIOLATION property=%s replay=%s" % (pid, path))
         else:
             base = dis[0][0] if dis else (scns[0] if scns else None)
